@@ -1,14 +1,10 @@
 import VibeProof.Props.C31
 #print axioms VibeProof.C31.C31_writer_rfc4180
-#print axioms VibeProof.C31.C31_import_roundtrip_partial
-#print axioms VibeProof.C31.C31_import_comma_counterexample
-#print axioms VibeProof.C31.C31_import_quote_counterexample
-#print axioms VibeProof.C31.C31_import_newline_counterexample
-#print axioms VibeProof.C31.C31_import_blank_counterexample
-#print axioms VibeProof.C31.C31_import_counterexample
+#print axioms VibeProof.C31.C31_import_roundtrip
+#print axioms VibeProof.C31.C31_crlf_records
 #print axioms VibeProof.C31.C31_value_confined
 #print axioms VibeProof.C31.C31_json_value_confined
-#print axioms VibeProof.C31.C31_json_null_text_counterexample
+#print axioms VibeProof.C31.C31_json_null_text
 #print axioms VibeProof.C31.C31_unvalidated_key_injects
 #print axioms VibeProof.C31.C31_validated_name_inert
 #print axioms VibeProof.C31.C31_export_import_counterexample
